@@ -176,6 +176,10 @@ class ContractMixin:
                             info={'claim': 'class-wide effect of %s on %s is within this function\'s modifies clause' % (cname, ref.ty.cls)})
                 continue
             allowed = [ref.t >= st.alloc0]
+            for x in self.frame:
+                if isinstance(x[0], str) and x[0] == 'ALL' and (x[1] is None or x[1] == field) and \
+                        (self.classes.is_subclass(ref.ty.cls, x[2]) or self.classes.is_subclass(x[2], ref.ty.cls)):
+                    allowed.append(z3.BoolVal(True))
             for (r, fk) in [(x[0], x[1]) for x in self.frame if not isinstance(x[0], str)]:
                 if fk is None or field is not None and (fk == field or (isinstance(fk, tuple) and fk[1] == field)):
                     allowed.append(ref.t == r)
